@@ -62,7 +62,11 @@ if allp:
     L.append("")
 if harm:
     props = sorted({p for r in harm.values() for p in r})
-    L += ["## Harmless rewrites (must stay silent; full Lean side)", "",
+    L += ["## Harmless rewrites (must stay silent)", "",
+          "Full Lean side (T1/T3 regenerated, every tie and theorem re-checked) plus correspondence and oracles, except the HN rows: "
+          "correspondence and oracles only (`--skip-lean`). For *all* rewrites, including HN, the Lean side was also re-run on its "
+          "own after the last change to the tie tactics (T3 + `lake build`, listing the declarations `maybe` skipped): no registered "
+          "theorem is lost for any of them.", "",
           "| rewrite | " + " | ".join(p[1:] for p in props) + " |", "|---|" + "---|" * len(props)]
     for sid in sorted(harm):
         L.append(f"| {sid.replace('harmless/', '')} | " + " | ".join(cell(harm[sid].get(p)) for p in props) + " |")
